@@ -351,6 +351,9 @@ class World:
     def source(self, items, flavour, sid=None):
         st = SrcState(self, len(self.srcs) if sid is None else sid, list(items), flavour)
         self.srcs.append(st)
+        if self.mode == "s" and flavour == "llist":
+            st.obj = LoggingList(st)
+            return st.obj
         if self.mode == "s" and flavour != "list":
             st.obj = SyncIter(st)
             return st.obj
@@ -373,6 +376,8 @@ class World:
             st.obj = AsyncDualSource(st)
         elif flavour == "aitb":
             st.obj = AsyncIterableOf(st)
+        elif flavour == "llist":
+            st.obj = LoggingList(st)
         else:
             raise HarnessError("flavour %r" % (flavour,))
         return st.obj
@@ -611,6 +616,21 @@ class AsyncClsSource(AsyncBareSource):
             st.world.log.append(("close", st.sid))
         st.closed += 1
         return st.world.aclose_ret
+
+
+class LoggingList(list):
+    """A real list (a Sequence) whose iteration is instrumented."""
+
+    def __init__(self, st):
+        list.__init__(self, st.items)
+        self._st = st
+
+    def __iter__(self):
+        st = self._st
+        # every new iteration starts over (re-iterable, unlike an iterator)
+        st.pos = 0
+        st.ended = False
+        return SyncIter(st)
 
 
 class AsyncIterableOf:
